@@ -9,6 +9,7 @@ ap.add_argument("--checks", default="")
 ap.add_argument("--thorough", default="")
 ap.add_argument("--needs", default="")
 ap.add_argument("--skip-tests", action="store_true")
+ap.add_argument("--note", default="")
 a = ap.parse_args()
 wt = a.wt
 ALL = ["C%02d" % i for i in range(1, 21)]
@@ -54,7 +55,7 @@ d = os.path.join("/verif/seeded", a.seed_id)
 os.makedirs(d, exist_ok=True)
 open(os.path.join(d, "patch.diff"), "w").write(patch)
 shutil.copy(demo, os.path.join(d, os.path.basename(demo)))
-meta = {"seed_id": a.seed_id, "breaks_property": a.prop, "needs_to_manifest": a.needs,
+meta = {"seed_id": a.seed_id, "breaks_property": a.prop, "needs_to_manifest": a.needs, "note": a.note,
         "base_commit": sh("git rev-parse HEAD", cwd=wt).stdout.decode().strip(),
         "confirmed": {"demo_exit_with_change": r_with.returncode, "demo_exit_without_change": r_without.returncode,
                       "demo_output_with_change_tail": r_with.stdout.decode()[-600:],
